@@ -501,3 +501,34 @@ fn c08_rle16_mega_dithered_max() {
     kani::cover!(c1 != c2, "distinct");
     forget(r);
 }
+
+/// MEGA_MEGA FGBG_IMAGE (0xF2) and MEGA_MEGA SET_FG_FGBG_IMAGE (0xF7): the 16-bit count is a pixel count (not
+/// multiplied by 8): 4 pixels on the first scanline, symbolic mask / foreground
+#[kani::proof]
+#[kani::unwind(14)]
+fn c09_rle16_mega_fgbg() {
+    let m: u8 = kani::any();
+    let input = [0xF2u8, 4, 0, m];
+    let mut out = [0u16; 4];
+    let r = rle_16_decompress(&input, 4, 1, &mut out);
+    assert!(r.is_ok(), "decodes");
+    let mut i = 0;
+    while i < 4 { assert!(out[i] == if (m >> i) & 1 != 0 { 0xffff } else { 0 }, "MEGA_MEGA FGBG_IMAGE: exactly 4 pixels, bit i selects fgPel / black on the first scanline"); i += 1; }
+    kani::cover!(m & 0xf == 0x9, "mask 1001");
+    forget(r);
+}
+
+#[kani::proof]
+#[kani::unwind(14)]
+fn c09_rle16_mega_set_fg_fgbg() {
+    let m: u8 = kani::any();
+    let fg: u16 = kani::any();
+    let input = [0xF7u8, 4, 0, fg as u8, (fg >> 8) as u8, m];
+    let mut out = [0u16; 4];
+    let r = rle_16_decompress(&input, 4, 1, &mut out);
+    assert!(r.is_ok(), "decodes");
+    let mut i = 0;
+    while i < 4 { assert!(out[i] == if (m >> i) & 1 != 0 { fg } else { 0 }, "MEGA_MEGA SET_FG_FGBG_IMAGE: exactly 4 pixels"); i += 1; }
+    kani::cover!(m & 0xf == 0x6 && fg == 0x1234, "sample");
+    forget(r);
+}
